@@ -644,6 +644,9 @@ ExpectedWriteMissing ==
 \* on that packet although nothing ended the connection)
 OwedTags ==
   (IF netIn # <<>> /\ HandlePkt(S, Head(netIn)).wr # <<>> THEN <<"C08">> ELSE <<>>)
+  \* (an acknowledgement that some operation is waiting for: that operation never completes with it - C05)
+  \o (IF netIn # <<>> /\ Head(netIn).t \in {"PUBACK", "PUBREC", "PUBCOMP", "SUBACK", "UNSUBACK", "PINGRESP"}
+         /\ HandlePkt(S, Head(netIn)).comp # <<>> THEN <<"C05">> ELSE <<>>)
   \o (IF netIn # <<>> /\ Head(netIn).t = "PUBLISH" /\ Head(netIn).sids # <<>> THEN <<"C07">> ELSE <<>>)
 PanicTags == <<"C04">> \o OwedTags
 
@@ -664,7 +667,10 @@ ClassifyCtxEnd(res) ==
           \* size: the refusal has stopped the context, later requests that fit are never written - C12 as well)
           \* (and after a cancellation: nothing but the cancelled caller's gone channel distinguishes this run from one that
           \* keeps serving - C15 as well)
+          \* (run() gone with input unread while the reference, which has handled all of it, holds acknowledgements that
+          \* operations have not collected yet: some operation whose acknowledgement did arrive is left pending - C05 as well)
           ELSE V(<<"C13">> \o OwedTags \o (IF res.kind = "Ok" /\ g.szany > 0 /\ ~discW THEN <<"C12">> ELSE <<>>)
+                          \o (IF Ln.unread > 0 /\ \E k \in DOMAIN ops : ops[k].slot # <<>> /\ ops[k].slot[1].k = "ack" THEN <<"C05">> ELSE <<>>)
                           \o (IF g.ncancel > 0 /\ HandlesAlive THEN <<"C15">> ELSE <<>>), "unexpected-return", res.kind))
        ELSE V("C13", "wrong-return", <<retd[1].kind, retd[1].rc, res.kind, res.rc>>)
 
